@@ -6,22 +6,39 @@ use std::panic::{catch_unwind, AssertUnwindSafe};
 use std::sync::mpsc;
 use std::time::Duration;
 
+pub enum Msg {
+	Line(String),
+	Oracle(String),
+	Done(Option<String>),
+}
+
 pub struct Out {
 	pub lines: Vec<String>,
 	pub oracle: Vec<String>,
+	/// in watchdog mode every line is also streamed to the supervising thread as it is produced
+	tx: Option<mpsc::Sender<Msg>>,
 }
 impl Out {
 	pub fn new() -> Self {
 		Self {
 			lines: vec![],
 			oracle: vec![],
+			tx: None,
 		}
 	}
 	pub fn put(&mut self, s: impl Into<String>) {
-		self.lines.push(s.into());
+		let s = s.into();
+		if let Some(tx) = &self.tx {
+			let _ = tx.send(Msg::Line(s.clone()));
+		}
+		self.lines.push(s);
 	}
 	pub fn oracle_fail(&mut self, name: &str, detail: impl std::fmt::Display) {
-		self.oracle.push(format!("!oracle {} {}", name, detail));
+		let s = format!("!oracle {} {}", name, detail);
+		if let Some(tx) = &self.tx {
+			let _ = tx.send(Msg::Oracle(s.clone()));
+		}
+		self.oracle.push(s);
 	}
 }
 
@@ -98,20 +115,41 @@ where
 		let (lines, oracle, fault): (Vec<String>, Vec<String>, Option<String>) = match watchdog {
 			None => run_one(&case, &f),
 			Some(limit) => {
+				// the watchdog limit applies to the time between two trace lines (i.e. per op)
 				let (tx, rx) = mpsc::channel();
 				let case2 = case.clone();
 				let f2 = f.clone();
 				std::thread::Builder::new()
 					.stack_size(64 << 20)
 					.spawn(move || {
-						let r = run_one(&case2, &f2);
-						let _ = tx.send(r);
+						let mut out = Out::new();
+						out.tx = Some(tx.clone());
+						let r = catch_unwind(AssertUnwindSafe(|| f2(&case2, &mut out)));
+						let fault = match r {
+							Ok(()) => None,
+							Err(_) => Some(classify(&last_panic()).to_string()),
+						};
+						let _ = tx.send(Msg::Done(fault));
 					})
 					.unwrap();
-				match rx.recv_timeout(limit) {
-					Ok(r) => r,
-					Err(_) => (vec![], vec![], Some("hang".to_string())),
+				let mut lines = vec![];
+				let mut oracle = vec![];
+				let fault;
+				loop {
+					match rx.recv_timeout(limit) {
+						Ok(Msg::Line(l)) => lines.push(l),
+						Ok(Msg::Oracle(o)) => oracle.push(o),
+						Ok(Msg::Done(f)) => {
+							fault = f;
+							break;
+						}
+						Err(_) => {
+							fault = Some("hang".to_string());
+							break;
+						}
+					}
 				}
+				(lines, oracle, fault)
 			}
 		};
 		let mut lines = lines;
